@@ -1,6 +1,7 @@
 SPECIFICATION TraceSpec
 CONSTANTS
   MaxParts = 3
+  PartEnds = {1}
   DevTornTailFailsGet = TRUE
   DevTimescaleZeroExits = FALSE
 INVARIANT Verdicts
